@@ -172,7 +172,7 @@ def recipes():
         Recipe("crps_cdf_brier_decomposition", g_cdf, lambda x, **k: P.crps_cdf_brier_decomposition(x[0], x[1], **k), fixed=["threshold"], keeps=["threshold"]),
         Recipe("cdf_envelope", g_cdf, lambda x, **k: cdf_envelope(x[0], "threshold"), fixed=["threshold"], dims_kw=False, lazy=False),
         Recipe("adjust_fcst_for_crps", g_cdf, lambda x, **k: P.adjust_fcst_for_crps(x[0], "threshold", x[1]), fixed=["threshold"], dims_kw=False, lazy=False),
-        Recipe("fss_2d", g_fss, lambda x, **k: fss_2d(x[0], x[1], event_threshold=2, window_size=(2, 2), spatial_dims=("x", "y"), **k), fixed=["x", "y"], dask=False, lazy=False),
+        Recipe("fss_2d", g_fss, lambda x, **k: fss_2d(x[0], x[1], event_threshold=2, window_size=(2, 3), spatial_dims=("x", "y"), **k), fixed=["x", "y"], dask=False, lazy=False),
         Recipe("risk_matrix_score", g_risk, lambda x, **k: risk_matrix_score(x[0], x[1], dw, "sev", "pt", **k), lazy=False, weights=True, specific=["sev"], fwd_weights=True),
         Recipe("isotonic_fit_weighted", g_iso, lambda x, **k: iso_result(Sc.processing.isoreg_impl.isotonic_fit(x[0], x[1], weight=x[2])),
                dims_kw=False, dask=False, lazy=False),
